@@ -1,12 +1,1010 @@
-//! stub: property C11 has no correspondence harness yet
+//! C11 — requests are isolated although `HttpRequest` allocations are recycled.
+//!
+//! One case = one history of tokens through ONE service instance (grammar: see
+//! `lean/ActixModel/Drv/C11.lean`).  The application is fixed (`build_app`, mirrored by
+//! `ActixModel.ReqPool.theCfg`): nested scopes with per-scope/per-resource app data, named and
+//! unnamed resources, a guarded pair, an app-level middleware and a dumping default service.
+//! Every handler/middleware dumps everything reachable from `HttpRequest`.
+//!
+//! Oracles (none of them uses the model):
+//!  * projection: for every request k of the history, the sub-history that concerns only k
+//!    (its `R` token and the `D/V/E/C` tokens on handles of k) is replayed on a FRESH service
+//!    instance; every dump must be identical ("determined by that request and the application
+//!    configuration alone");
+//!  * ground truth: method/uri/version/peer/headers in each dump equal the request that was sent;
+//!  * release: the number of live request-extension values equals the number inserted into
+//!    requests that still have a live handle (book-keeping of the harness itself).
+use std::{
+    cell::{Cell, RefCell},
+    collections::{BTreeMap, BTreeSet},
+    future::Future,
+    pin::Pin,
+    rc::Rc,
+    task::Poll,
+};
+
+use actix_http::Request;
+use actix_service::Service;
+use actix_web::{
+    dev::{ServiceRequest, ServiceResponse},
+    guard, test, web, App, HttpMessage, HttpRequest, HttpResponse,
+};
+
 use super::Prop;
-use crate::common::CaseResult;
+use crate::common::{block_on_system, CaseResult, Ctx, Rng};
+
+const RULE: &str = "case = history of tokens through one service instance of a fixed app (nested scopes with scoped \
+app_data, named/unnamed/guarded resources, default service, app-level middleware): R = request (method, uri, version, \
+peer, headers, request-level extensions; handler actions: insert typed extensions, stash clones, never complete), \
+D/V/E/C = drop / dump / extend / clone a stashed handle, X = drop the service; histories of 1..40 tokens plus long ones \
+with >128 simultaneously live requests; a case is non-trivial if at least one request was served from a recycled \
+allocation (harness book-keeping of the pool); distinct = distinct (case, output) hashes";
+
+// ---------------------------------------------------------------------------------------------
+// probe types
+
+#[derive(Clone)]
+struct Alive(Rc<Cell<isize>>);
+impl Alive {
+    fn new(c: &Rc<Cell<isize>>) -> Self {
+        c.set(c.get() + 1);
+        Alive(c.clone())
+    }
+}
+impl Drop for Alive {
+    fn drop(&mut self) {
+        self.0.set(self.0.get() - 1);
+    }
+}
+
+struct E1(u32, #[allow(dead_code)] Alive);
+struct E2(u32, #[allow(dead_code)] Alive);
+struct E3(u32, #[allow(dead_code)] Alive);
+struct DA(u32);
+struct DB(u32);
+struct DC(u32);
+pub struct ConnProbe(pub u32, #[allow(dead_code)] Alive);
+
+#[derive(Clone, Debug, PartialEq)]
+enum Act {
+    Ext(u32, u32),
+    Stash(u32),
+    Cancel,
+}
+
+#[derive(Default)]
+struct Shared {
+    acts: RefCell<Vec<Act>>,
+    dumps: RefCell<Vec<String>>,
+    stash: RefCell<BTreeMap<u32, HttpRequest>>,
+    ext_alive: Rc<Cell<isize>>,
+    conn_alive: Rc<Cell<isize>>,
+}
+
+fn insert_ext(req: &HttpRequest, alive: &Rc<Cell<isize>>, t: u32, v: u32) {
+    let a = Alive::new(alive);
+    match t {
+        1 => {
+            req.extensions_mut().insert(E1(v, a));
+        }
+        2 => {
+            req.extensions_mut().insert(E2(v, a));
+        }
+        3 => {
+            req.extensions_mut().insert(E3(v, a));
+        }
+        _ => {}
+    }
+}
+
+fn opt(v: Option<u32>) -> String {
+    v.map(|n| n.to_string()).unwrap_or_else(|| "-".into())
+}
+
+/// everything reachable from an `HttpRequest`, canonical
+fn dump(r: &HttpRequest) -> String {
+    let ver = match r.version() {
+        actix_web::http::Version::HTTP_10 => "10",
+        actix_web::http::Version::HTTP_11 => "11",
+        actix_web::http::Version::HTTP_2 => "2",
+        _ => "?",
+    };
+    let hs: Vec<String> = ["x-a", "x-b", "x-g"]
+        .iter()
+        .map(|n| {
+            let vs: Vec<String> = r.headers().get_all(*n).map(|v| v.to_str().unwrap_or("?").to_owned()).collect();
+            if vs.is_empty() {
+                "-".to_owned()
+            } else {
+                vs.join(",")
+            }
+        })
+        .collect();
+    let ps: Vec<String> = r.match_info().iter().map(|(k, v)| format!("{k}:{v}")).collect();
+    let ext = r.extensions();
+    let xs = [ext.get::<E1>().map(|e| e.0), ext.get::<E2>().map(|e| e.0), ext.get::<E3>().map(|e| e.0)];
+    let ds = [r.app_data::<DA>().map(|d| d.0), r.app_data::<DB>().map(|d| d.0), r.app_data::<DC>().map(|d| d.0)];
+    format!(
+        "m={};u={};v={};p={};H={}/n{};P={};U={};X={};c={};D={};n={};t={}",
+        r.method(),
+        r.uri(),
+        ver,
+        opt(r.peer_addr().map(|a| a.port() as u32)),
+        hs.join("/"),
+        r.headers().len(),
+        ps.join(","),
+        r.match_info().unprocessed(),
+        xs.iter().map(|x| opt(*x)).collect::<Vec<_>>().join(","),
+        opt(r.conn_data::<ConnProbe>().map(|c| c.0)),
+        ds.iter().map(|x| opt(*x)).collect::<Vec<_>>().join(","),
+        r.match_name().unwrap_or("-"),
+        r.match_pattern().unwrap_or_else(|| "-".into()),
+    )
+}
+
+async fn handler(req: HttpRequest, sh: Rc<Shared>) -> HttpResponse {
+    sh.dumps.borrow_mut().push(dump(&req));
+    let acts = sh.acts.borrow().clone();
+    let mut cancel = false;
+    for a in &acts {
+        match a {
+            Act::Ext(t, v) => insert_ext(&req, &sh.ext_alive, *t, *v),
+            Act::Stash(s) => {
+                let old = sh.stash.borrow_mut().insert(*s, req.clone());
+                drop(old);
+            }
+            Act::Cancel => cancel = true,
+        }
+    }
+    if cancel {
+        drop(req);
+        std::future::pending::<()>().await;
+    }
+    HttpResponse::Ok().finish()
+}
+
+macro_rules! h {
+    ($sh:expr) => {{
+        let sh = $sh.clone();
+        move |req: HttpRequest| handler(req, sh.clone())
+    }};
+}
+
+/// The fixed application; mirrored by `ActixModel.ReqPool.theCfg`.
+fn build_app(
+    sh: &Rc<Shared>,
+) -> App<
+    impl actix_service::ServiceFactory<
+        ServiceRequest,
+        Config = (),
+        Response = ServiceResponse<impl actix_web::body::MessageBody>,
+        Error = actix_web::Error,
+        InitError = (),
+    >,
+> {
+    let mw = sh.clone();
+    App::new()
+        .app_data(DA(0))
+        .wrap_fn(move |req: ServiceRequest, srv| {
+            let sh = mw.clone();
+            sh.dumps.borrow_mut().push(dump(req.request()));
+            let fut = srv.call(req);
+            async move {
+                let res = fut.await?;
+                sh.dumps.borrow_mut().push(dump(res.request()));
+                Ok(res)
+            }
+        })
+        .service(web::resource("/").name("root").to(h!(sh)))
+        .service(web::resource("/u/{id}").name("user").app_data(DB(1)).to(h!(sh)))
+        .service(
+            web::scope("/s/{sid}")
+                .app_data(DA(2))
+                .app_data(DC(2))
+                .service(web::resource("/r/{rid}").name("sr").to(h!(sh)))
+                .service(
+                    web::scope("/n")
+                        .app_data(DB(3))
+                        .service(web::resource("/{x}/{y}").name("deep").app_data(DC(4)).to(h!(sh)))
+                        .service(web::resource("/p").to(h!(sh))),
+                )
+                .service(web::resource("/g").name("g1").guard(guard::Header("x-g", "1")).to(h!(sh)))
+                .service(web::resource("/g").name("g2").to(h!(sh))),
+        )
+        .service(web::scope("/t").service(web::resource("/{id}").name("tid").to(h!(sh))))
+        .default_service(web::to(h!(sh)))
+}
+
+// ---------------------------------------------------------------------------------------------
+// tokens
+
+#[derive(Clone, Debug)]
+struct ReqTok {
+    conn: Option<u32>,
+    method: String,
+    uri: String,
+    ver: String,
+    peer: Option<u32>,
+    hdrs: Vec<(String, String)>,
+    reqdata: Vec<(u32, u32)>,
+    acts: Vec<Act>,
+}
+
+#[derive(Clone, Debug)]
+enum Tok {
+    R(ReqTok),
+    D(u32),
+    V(u32),
+    E(u32, u32, u32),
+    C(u32, u32),
+    X,
+    Q(u32),
+    M(String),
+    Bad,
+}
+
+fn opt_nat(s: &str) -> Option<Option<u32>> {
+    if s == "-" {
+        Some(None)
+    } else {
+        s.parse().ok().map(Some)
+    }
+}
+
+fn pairs(s: &str) -> Option<Vec<(String, String)>> {
+    if s == "-" {
+        return Some(vec![]);
+    }
+    s.split(',')
+        .map(|kv| {
+            let p: Vec<&str> = kv.split('=').collect();
+            if p.len() == 2 {
+                Some((p[0].to_owned(), p[1].to_owned()))
+            } else {
+                None
+            }
+        })
+        .collect()
+}
+
+fn nat_pairs(s: &str) -> Option<Vec<(u32, u32)>> {
+    pairs(s)?.into_iter().map(|(k, v)| Some((k.parse().ok()?, v.parse().ok()?))).collect()
+}
+
+fn slot(s: &str) -> Option<u32> {
+    s.parse().ok().filter(|n| *n != 0)
+}
+
+fn parse_act(s: &str) -> Option<Act> {
+    if s == "x" {
+        return Some(Act::Cancel);
+    }
+    if let Some(r) = s.strip_prefix('k') {
+        return slot(r).map(Act::Stash);
+    }
+    if let Some(r) = s.strip_prefix('e') {
+        let p: Vec<&str> = r.split('=').collect();
+        if p.len() == 2 {
+            return Some(Act::Ext(p[0].parse().ok()?, p[1].parse().ok()?));
+        }
+    }
+    None
+}
+
+fn parse_tok(t: &str) -> Tok {
+    if let Some(m) = t.strip_prefix("M=") {
+        return Tok::M(m.to_owned());
+    }
+    let p: Vec<&str> = t.split(':').collect();
+    let r = (|| -> Option<Tok> {
+        Some(match p.as_slice() {
+            ["R", conn, method, uri, ver, peer, hdrs, xd, acts] => Tok::R(ReqTok {
+                conn: opt_nat(conn)?,
+                method: method.to_string(),
+                uri: uri.to_string(),
+                ver: ver.to_string(),
+                peer: opt_nat(peer)?,
+                hdrs: pairs(hdrs)?,
+                reqdata: nat_pairs(xd)?,
+                acts: if *acts == "-" { vec![] } else { acts.split(',').map(parse_act).collect::<Option<Vec<_>>>()? },
+            }),
+            ["D", s] => Tok::D(slot(s)?),
+            ["V", s] => Tok::V(slot(s)?),
+            ["E", s, kv] => {
+                let q: Vec<&str> = kv.split('=').collect();
+                if q.len() != 2 {
+                    return None;
+                }
+                Tok::E(slot(s)?, q[0].parse().ok()?, q[1].parse().ok()?)
+            }
+            ["C", s, s2] => Tok::C(slot(s)?, slot(s2)?),
+            ["X"] => Tok::X,
+            ["Q", c] => Tok::Q(c.parse().ok()?),
+            _ => return None,
+        })
+    })();
+    r.unwrap_or(Tok::Bad)
+}
+
+fn build_request(sh: &Shared, r: &ReqTok) -> Request {
+    use actix_web::http::{Method, Version};
+    let mut t = test::TestRequest::default()
+        .method(Method::from_bytes(r.method.as_bytes()).unwrap_or(Method::GET))
+        .uri(&r.uri)
+        .version(match r.ver.as_str() {
+            "10" => Version::HTTP_10,
+            "2" => Version::HTTP_2,
+            _ => Version::HTTP_11,
+        });
+    if let Some(p) = r.peer {
+        t = t.peer_addr(std::net::SocketAddr::from(([127, 0, 0, 1], p as u16)));
+    }
+    for (k, v) in &r.hdrs {
+        t = t.append_header((k.as_str(), v.as_str()));
+    }
+    let req = t.to_request();
+    for (ty, v) in &r.reqdata {
+        let a = Alive::new(&sh.ext_alive);
+        match ty {
+            1 => {
+                req.extensions_mut().insert(E1(*v, a));
+            }
+            2 => {
+                req.extensions_mut().insert(E2(*v, a));
+            }
+            3 => {
+                req.extensions_mut().insert(E3(*v, a));
+            }
+            _ => {}
+        }
+    }
+    req
+}
+
+/// tokens that act on stashed handles only (same in both modes)
+fn slot_token(sh: &Shared, tok: &Tok) -> Option<String> {
+    Some(match tok {
+        Tok::D(s) => {
+            let h = sh.stash.borrow_mut().remove(s);
+            match h {
+                Some(h) => {
+                    drop(h);
+                    "ok".to_owned()
+                }
+                None => "-".to_owned(),
+            }
+        }
+        Tok::V(s) => match sh.stash.borrow().get(s) {
+            Some(h) => dump(h),
+            None => "-".to_owned(),
+        },
+        Tok::E(s, t, v) => match sh.stash.borrow().get(s) {
+            Some(h) => {
+                insert_ext(h, &sh.ext_alive, *t, *v);
+                "ok".to_owned()
+            }
+            None => "-".to_owned(),
+        },
+        Tok::C(s, s2) => {
+            let h = sh.stash.borrow().get(s).cloned();
+            match h {
+                Some(h) => {
+                    let old = sh.stash.borrow_mut().insert(*s2, h);
+                    drop(old);
+                    "ok".to_owned()
+                }
+                None => "-".to_owned(),
+            }
+        }
+        Tok::M(_) => "m".to_owned(),
+        Tok::Bad => "bad-op".to_owned(),
+        _ => return None,
+    })
+}
+
+type Outs = Vec<(String, isize, isize)>;
+
+/// mode `svc`: outputs of one history on one fresh `test::init_service` instance:
+/// per token (text, live ext values, live conn data)
+async fn run_history_svc(toks: &[Tok]) -> Outs {
+    let sh = Rc::new(Shared::default());
+    let mut svc = Some(test::init_service(build_app(&sh)).await);
+    let mut outs = Vec::with_capacity(toks.len());
+    for tok in toks {
+        let text = match tok {
+            Tok::R(r) => match &svc {
+                None => "-".to_owned(),
+                Some(s) => {
+                    let req = build_request(&sh, r);
+                    *sh.acts.borrow_mut() = r.acts.clone();
+                    sh.dumps.borrow_mut().clear();
+                    let mut fut: Pin<Box<dyn Future<Output = _>>> = Box::pin(s.call(req));
+                    if r.acts.contains(&Act::Cancel) {
+                        // poll once, then drop the service future while the handler is pending
+                        let _ = std::future::poll_fn(|cx| Poll::Ready(fut.as_mut().poll(cx).is_ready())).await;
+                        drop(fut);
+                    } else {
+                        let res = fut.await;
+                        drop(res);
+                    }
+                    sh.acts.borrow_mut().clear();
+                    let d = sh.dumps.borrow().join("|");
+                    d
+                }
+            },
+            Tok::X => {
+                svc = None;
+                "ok".to_owned()
+            }
+            Tok::Q(_) => "ok".to_owned(),
+            other => slot_token(&sh, other).unwrap(),
+        };
+        outs.push((text, sh.ext_alive.get(), sh.conn_alive.get()));
+    }
+    // release everything before the runtime goes away
+    sh.stash.borrow_mut().clear();
+    drop(svc);
+    outs
+}
+
+struct Conn {
+    client: tokio::io::DuplexStream,
+    task: actix_rt::task::JoinHandle<()>,
+}
+
+async fn close_conn(c: Conn) {
+    drop(c.client);
+    let _ = c.task.await;
+}
+
+/// mode `h1`: the same application behind `HttpService::h1` with an `on_connect_ext` callback;
+/// requests are HTTP/1.1 bytes written to in-memory connections (one dispatcher per connection,
+/// all sharing the one `AppInitService` and hence the one request pool)
+async fn run_history_h1(toks: &[Tok]) -> Outs {
+    use actix_http::HttpService;
+    use tokio::io::{AsyncReadExt, AsyncWriteExt};
+    let sh = Rc::new(Shared::default());
+    let cur_conn = Rc::new(Cell::new(0u32));
+    let (cc, ca) = (cur_conn.clone(), sh.conn_alive.clone());
+    let factory = HttpService::build()
+        .on_connect_ext(move |_io: &tokio::io::DuplexStream, ext: &mut actix_http::Extensions| {
+            ext.insert(ConnProbe(cc.get(), Alive::new(&ca)));
+        })
+        .h1(actix_service::map_config(build_app(&sh), |_| actix_web::dev::AppConfig::default()));
+    let mut svc = Some(actix_service::ServiceFactory::new_service(&factory, ()).await.expect("h1 service"));
+    let mut conns: BTreeMap<u32, Conn> = BTreeMap::new();
+    let mut outs = Vec::with_capacity(toks.len());
+    for tok in toks {
+        let text = match tok {
+            Tok::R(r) => match (&svc, r.conn) {
+                (Some(s), Some(c)) if !r.acts.contains(&Act::Cancel) && r.reqdata.is_empty() => {
+                    if !conns.contains_key(&c) {
+                        let (client, server) = tokio::io::duplex(1 << 16);
+                        cur_conn.set(c);
+                        let peer = r.peer.map(|p| std::net::SocketAddr::from(([127, 0, 0, 1], p as u16)));
+                        let fut = s.call((server, peer));
+                        let task = actix_rt::spawn(async move {
+                            let _ = fut.await;
+                        });
+                        conns.insert(c, Conn { client, task });
+                    }
+                    *sh.acts.borrow_mut() = r.acts.clone();
+                    sh.dumps.borrow_mut().clear();
+                    let mut raw = format!("{} {} HTTP/{}\r\n", r.method, r.uri, if r.ver == "10" { "1.0" } else { "1.1" });
+                    for (k, v) in &r.hdrs {
+                        raw.push_str(&format!("{k}: {v}\r\n"));
+                    }
+                    raw.push_str("\r\n");
+                    let conn = conns.get_mut(&c).unwrap();
+                    let mut ok = conn.client.write_all(raw.as_bytes()).await.is_ok();
+                    // read one complete response head (bodies are empty)
+                    let mut buf = Vec::new();
+                    let mut chunk = [0u8; 1024];
+                    while ok && !buf.windows(4).any(|w| w == b"\r\n\r\n") {
+                        match conn.client.read(&mut chunk).await {
+                            Ok(0) | Err(_) => ok = false,
+                            Ok(n) => buf.extend_from_slice(&chunk[..n]),
+                        }
+                    }
+                    sh.acts.borrow_mut().clear();
+                    let d = sh.dumps.borrow().join("|");
+                    if ok {
+                        d
+                    } else {
+                        format!("{d}|connection-lost")
+                    }
+                }
+                (None, _) => "-".to_owned(),
+                _ => "unsupported-in-h1".to_owned(),
+            },
+            Tok::X => {
+                // the AppInitService lives as long as a dispatcher holds the flow: close all
+                for (_, c) in std::mem::take(&mut conns) {
+                    close_conn(c).await;
+                }
+                svc = None;
+                "ok".to_owned()
+            }
+            Tok::Q(c) => {
+                if let Some(c) = conns.remove(c) {
+                    close_conn(c).await;
+                }
+                "ok".to_owned()
+            }
+            other => slot_token(&sh, other).unwrap(),
+        };
+        outs.push((text, sh.ext_alive.get(), sh.conn_alive.get()));
+    }
+    sh.stash.borrow_mut().clear();
+    for (_, c) in std::mem::take(&mut conns) {
+        close_conn(c).await;
+    }
+    drop(svc);
+    outs
+}
+
+fn is_h1(toks: &[Tok]) -> bool {
+    matches!(toks.first(), Some(Tok::M(m)) if m == "h1")
+}
+
+async fn run_history(toks: &[Tok]) -> Outs {
+    if is_h1(toks) {
+        run_history_h1(toks).await
+    } else {
+        run_history_svc(toks).await
+    }
+}
+
+// ---------------------------------------------------------------------------------------------
+// book-keeping for the oracles (independent of the model)
+
+#[derive(Default)]
+struct Book {
+    /// slot -> request index
+    owner: BTreeMap<u32, usize>,
+    /// per request: extension types present
+    ext_types: Vec<BTreeSet<u32>>,
+    /// per request: projected history and, per projected token, the index of the token of the full
+    /// history whose output it must reproduce
+    proj: Vec<Vec<(Tok, Option<usize>)>>,
+    /// per request: connection it arrived on (h1 mode)
+    conn_of: Vec<Option<u32>>,
+    /// connections whose dispatcher is alive (h1 mode)
+    open: BTreeSet<u32>,
+    /// estimate of the pool length (for tags only)
+    pool: usize,
+    alive_svc: bool,
+    reuse: bool,
+    overflow: bool,
+    outlive: bool,
+    max_live: usize,
+}
+
+impl Book {
+    fn handles(&self, k: usize) -> usize {
+        self.owner.values().filter(|o| **o == k).count()
+    }
+    fn released(&mut self, k: usize) {
+        if self.handles(k) == 0 && self.alive_svc {
+            if self.pool < 128 {
+                self.pool += 1;
+            } else {
+                self.overflow = true;
+            }
+        }
+    }
+    fn bind(&mut self, s: u32, k: usize, cur: Option<usize>) {
+        if let Some(old) = self.owner.insert(s, k) {
+            if old != k {
+                self.proj[old].push((Tok::D(s), None));
+                if Some(old) != cur {
+                    self.released(old);
+                }
+            }
+        }
+    }
+    fn expected_conn_alive(&self) -> isize {
+        let mut cs = self.open.clone();
+        for k in 0..self.conn_of.len() {
+            if let (Some(c), true) = (self.conn_of[k], self.handles(k) > 0) {
+                cs.insert(c);
+            }
+        }
+        cs.len() as isize
+    }
+    fn expected_alive(&self) -> isize {
+        (0..self.ext_types.len()).filter(|k| self.handles(*k) > 0).map(|k| self.ext_types[k].len() as isize).sum()
+    }
+}
+
+fn field<'a>(dump: &'a str, key: &str) -> &'a str {
+    dump.split(';').find_map(|f| f.strip_prefix(key)).unwrap_or("")
+}
+
+fn expected_head(r: &ReqTok) -> String {
+    let hs: Vec<String> = ["x-a", "x-b", "x-g"]
+        .iter()
+        .map(|n| {
+            let vs: Vec<&str> = r.hdrs.iter().filter(|(k, _)| k == n).map(|(_, v)| v.as_str()).collect();
+            if vs.is_empty() {
+                "-".to_owned()
+            } else {
+                vs.join(",")
+            }
+        })
+        .collect();
+    format!("m={};u={};v={};p={};H={}/n{}", r.method, r.uri, r.ver, opt(r.peer), hs.join("/"), r.hdrs.len())
+}
+
+fn run(line: &str) -> CaseResult {
+    let toks: Vec<Tok> = line.split_ascii_whitespace().map(parse_tok).collect();
+    let toks2 = toks.clone();
+    let h1 = is_h1(&toks);
+    let (outs, fails, book) = block_on_system(async move {
+        let toks = toks2;
+        let outs = run_history(&toks).await;
+        let mut fails: Vec<(String, String)> = Vec::new();
+        let mut b = Book { alive_svc: true, ..Default::default() };
+        for (j, tok) in toks.iter().enumerate() {
+            match tok {
+                Tok::R(r)
+                    if b.alive_svc
+                        && (!h1 || (r.conn.is_some() && !r.acts.contains(&Act::Cancel) && r.reqdata.is_empty())) =>
+                {
+                    let k = b.ext_types.len();
+                    b.conn_of.push(if h1 { r.conn } else { None });
+                    if let (true, Some(c)) = (h1, r.conn) {
+                        b.open.insert(c);
+                    }
+                    if b.pool > 0 {
+                        b.pool -= 1;
+                        b.reuse = true;
+                    }
+                    b.ext_types.push(r.reqdata.iter().map(|e| e.0).filter(|t| (1..=3).contains(t)).collect());
+                    b.proj.push(if h1 {
+                        vec![(Tok::M("h1".into()), None), (tok.clone(), Some(j))]
+                    } else {
+                        vec![(tok.clone(), Some(j))]
+                    });
+                    for a in &r.acts {
+                        match a {
+                            Act::Ext(t, _) if (1..=3).contains(t) => {
+                                b.ext_types[k].insert(*t);
+                            }
+                            Act::Stash(s) => b.bind(*s, k, Some(k)),
+                            _ => {}
+                        }
+                    }
+                    b.released(k);
+                    // ground truth: the head in every dump is the head that was sent
+                    let want = expected_head(r);
+                    for d in outs[j].0.split('|') {
+                        if !d.starts_with(&want) {
+                            fails.push(("head-mismatch".into(), format!("token {j}: dump {d} does not start with {want}")));
+                            break;
+                        }
+                        let c = field(d, "c=");
+                        if c != opt(if h1 { r.conn } else { None }) {
+                            fails.push(("conn-data-mismatch".into(), format!("token {j}: conn_data {c} want {}", opt(r.conn))));
+                            break;
+                        }
+                    }
+                }
+                Tok::R(_) => {}
+                Tok::D(s) => {
+                    if let Some(k) = b.owner.remove(s) {
+                        b.proj[k].push((tok.clone(), Some(j)));
+                        b.released(k);
+                    }
+                }
+                Tok::V(s) => {
+                    if let Some(&k) = b.owner.get(s) {
+                        b.proj[k].push((tok.clone(), Some(j)));
+                        if k + 1 < b.ext_types.len() {
+                            b.outlive = true;
+                        }
+                    }
+                }
+                Tok::E(s, t, _) => {
+                    if let Some(&k) = b.owner.get(s) {
+                        b.proj[k].push((tok.clone(), Some(j)));
+                        if (1..=3).contains(t) {
+                            b.ext_types[k].insert(*t);
+                        }
+                    }
+                }
+                Tok::C(s, s2) => {
+                    if let Some(&k) = b.owner.get(s) {
+                        b.proj[k].push((tok.clone(), Some(j)));
+                        b.bind(*s2, k, None);
+                    }
+                }
+                Tok::Q(c) => {
+                    b.open.remove(c);
+                }
+                Tok::X => {
+                    b.alive_svc = false;
+                    b.pool = 0;
+                    b.open.clear();
+                    for k in 0..b.proj.len() {
+                        if b.handles(k) > 0 {
+                            b.proj[k].push((Tok::X, Some(j)));
+                        }
+                    }
+                }
+                Tok::M(_) | Tok::Bad => {}
+            }
+            let live = (0..b.ext_types.len()).filter(|k| b.handles(*k) > 0).count();
+            b.max_live = b.max_live.max(live);
+            // release oracle
+            let want = b.expected_alive();
+            let cwant = b.expected_conn_alive();
+            if h1 && outs[j].2 != cwant && fails.iter().all(|f| f.0 != "conn-data-release") {
+                fails.push((
+                    "conn-data-release".into(),
+                    format!("after token {j}: {} connection-data containers alive, {} belong to open connections or requests with a live handle", outs[j].2, cwant),
+                ));
+            }
+            if outs[j].1 != want && fails.iter().all(|f| f.0 != "ext-release") {
+                fails.push((
+                    "ext-release".into(),
+                    format!("after token {j}: {} request-extension values alive, {} belong to requests with a live handle", outs[j].1, want),
+                ));
+            }
+        }
+        // projection oracle: each request alone on a fresh service instance
+        'outer: for (k, p) in b.proj.iter().enumerate() {
+            let ptoks: Vec<Tok> = p.iter().map(|x| x.0.clone()).collect();
+            let pouts = run_history(&ptoks).await;
+            for ((_, j), po) in p.iter().zip(&pouts) {
+                if let Some(j) = j {
+                    if po.0 != outs[*j].0 {
+                        let sig = match toks[*j] {
+                            Tok::R(_) => "dump-differs-from-fresh",
+                            _ => "clone-view-changed",
+                        };
+                        fails.push((
+                            sig.into(),
+                            format!("request #{k}, token {j}: in history {} / alone on a fresh service {}", first_diff(&outs[*j].0, &po.0), first_diff(&po.0, &outs[*j].0)),
+                        ));
+                        break 'outer;
+                    }
+                }
+            }
+        }
+        (outs, fails, b)
+    });
+    let output: Vec<String> = outs.iter().map(|o| format!("{}#{},{}", o.0, o.1, o.2)).collect();
+    let mut tags = Vec::new();
+    if book.reuse {
+        tags.push("reuse".to_owned());
+    }
+    if book.overflow {
+        tags.push("pool-overflow".to_owned());
+    }
+    if book.outlive {
+        tags.push("clone-outlives".to_owned());
+    }
+    if !book.alive_svc {
+        tags.push("service-dropped".to_owned());
+    }
+    if toks.iter().any(|t| matches!(t, Tok::R(r) if r.acts.contains(&Act::Cancel))) {
+        tags.push("cancelled".to_owned());
+    }
+    if h1 {
+        tags.push("h1-conn-data".to_owned());
+    }
+    if book.max_live > 128 {
+        tags.push("live>128".to_owned());
+    }
+    CaseResult { output: output.join(" "), fail: fails.into_iter().next(), nontrivial: book.reuse, tags }
+}
+
+/// the first `;`-field in which `a` differs from `b`, with its dump index
+fn first_diff(a: &str, b: &str) -> String {
+    for (i, (da, db)) in a.split('|').zip(b.split('|')).enumerate() {
+        for (fa, fb) in da.split(';').zip(db.split(';')) {
+            if fa != fb {
+                return format!("[dump {i}] {fa}");
+            }
+        }
+    }
+    if a.len() > 60 {
+        format!("{}…", &a[..60])
+    } else {
+        a.to_owned()
+    }
+}
+
+// ---------------------------------------------------------------------------------------------
+// generator
+
+const SEGS: &[&str] = &["1", "22", "a", "zz9", "p", "r", "n", "g", "x.y", "-"];
+
+fn gen_uri(rng: &mut Rng) -> String {
+    let s = |rng: &mut Rng| rng.pick(SEGS).to_string();
+    let mut u = match rng.below(16) {
+        0 => "/".to_owned(),
+        1 => format!("/u/{}", s(rng)),
+        2 => format!("/s/{}/r/{}", s(rng), s(rng)),
+        3 => format!("/s/{}/n/{}/{}", s(rng), s(rng), s(rng)),
+        4 => format!("/s/{}/n/p", s(rng)),
+        5 => format!("/s/{}/g", s(rng)),
+        6 => format!("/t/{}", s(rng)),
+        7 => format!("/s/{}", s(rng)),               // scope prefix only: scope default
+        8 => format!("/s/{}/n", s(rng)),             // nested scope default
+        9 => format!("/s/{}/q/{}", s(rng), s(rng)),  // unmatched inside scope
+        10 => "/t".to_owned(),
+        11 => format!("/{}", s(rng)),                // app default
+        12 => format!("/u/{}/{}", s(rng), s(rng)),   // no match (resource is not a prefix)
+        13 => format!("/s/{}/n/{}", s(rng), s(rng)),
+        14 => format!("/t/{}/", s(rng)),
+        _ => format!("/s/{}/r/{}", s(rng), s(rng)),
+    };
+    if rng.chance(1, 4) {
+        u.push_str(*rng.pick(&["?q=1", "?", "?a=b&c=d"]));
+    }
+    u
+}
+
+fn gen_req(rng: &mut Rng, slots: u32) -> String {
+    let method = *rng.pick(&["GET", "GET", "POST", "PUT"]);
+    let ver = *rng.pick(&["11", "11", "10", "2"]);
+    let peer = if rng.chance(1, 3) { rng.range(1000, 1003).to_string() } else { "-".into() };
+    let mut hdrs = Vec::new();
+    for _ in 0..rng.below(4) {
+        hdrs.push(format!("{}={}", rng.pick(&["x-a", "x-b", "x-g", "x-g", "x-z"]), rng.pick(&["1", "2", "v"])));
+    }
+    let mut xd = Vec::new();
+    if rng.chance(1, 5) {
+        for _ in 0..rng.range(1, 2) {
+            xd.push(format!("{}={}", rng.range(1, 3), rng.below(10)));
+        }
+    }
+    let mut acts = Vec::new();
+    for _ in 0..rng.below(4) {
+        match rng.below(5) {
+            0 | 1 => acts.push(format!("e{}={}", rng.range(1, 3), rng.below(10))),
+            2 | 3 => acts.push(format!("k{}", rng.range(1, slots as usize))),
+            _ => {
+                if rng.chance(1, 3) {
+                    acts.push("x".to_owned())
+                }
+            }
+        }
+    }
+    let j = |v: Vec<String>| if v.is_empty() { "-".to_owned() } else { v.join(",") };
+    format!("R:-:{}:{}:{}:{}:{}:{}:{}", method, gen_uri(rng), ver, peer, j(hdrs), j(xd), j(acts))
+}
+
+fn gen_history(rng: &mut Rng, n: usize, slots: u32) -> String {
+    let mut toks = Vec::new();
+    for _ in 0..n {
+        let s = rng.range(1, slots as usize);
+        toks.push(match rng.below(20) {
+            0..=10 => gen_req(rng, slots),
+            11..=13 => format!("D:{s}"),
+            14..=15 => format!("V:{s}"),
+            16 => format!("E:{s}:{}={}", rng.range(1, 3), rng.below(10)),
+            17 => format!("C:{s}:{}", rng.range(1, slots as usize)),
+            18 => format!("V:{s}"),
+            _ => {
+                if rng.chance(1, 6) {
+                    "X".to_owned()
+                } else {
+                    format!("D:{s}")
+                }
+            }
+        });
+    }
+    toks.join(" ")
+}
+
+/// more than `cap` requests alive at once (clones stashed), then all released, then new requests
+fn gen_overflow(rng: &mut Rng) -> String {
+    let n = rng.range(126, 135);
+    let mut toks = Vec::new();
+    for s in 1..=n {
+        let mut r = gen_req(rng, 1);
+        // force exactly one stash into slot s
+        let idx = r.rfind(':').unwrap();
+        let acts: Vec<String> =
+            r[idx + 1..].split(',').filter(|a| !a.starts_with('k') && *a != "x" && *a != "-").map(|a| a.to_owned()).collect();
+        r.truncate(idx + 1);
+        let mut acts = acts;
+        acts.push(format!("k{s}"));
+        r.push_str(&acts.join(","));
+        toks.push(r);
+    }
+    let mut order: Vec<usize> = (1..=n).collect();
+    for i in (1..order.len()).rev() {
+        order.swap(i, rng.below(i + 1));
+    }
+    for s in order {
+        if rng.chance(1, 20) {
+            toks.push(format!("V:{s}"));
+        }
+        toks.push(format!("D:{s}"));
+    }
+    for _ in 0..rng.range(3, 10) {
+        toks.push(gen_req(rng, 4));
+    }
+    toks.join(" ")
+}
+
+/// history over HTTP/1.1 connections with connection data (connection ids are never reused)
+fn gen_h1(rng: &mut Rng, n: usize, slots: u32) -> String {
+    let mut toks = vec!["M=h1".to_owned()];
+    let mut live: Vec<usize> = Vec::new();
+    let mut next = 1usize;
+    for _ in 0..n {
+        let s = rng.range(1, slots as usize);
+        toks.push(match rng.below(20) {
+            0..=9 => {
+                let c = if live.is_empty() || (live.len() < 3 && rng.chance(1, 3)) {
+                    live.push(next);
+                    next += 1;
+                    next - 1
+                } else {
+                    *rng.pick(&live)
+                };
+                let r = gen_req(rng, slots);
+                // R:<conn>:<method>:<uri>:<ver>:<peer>:<hdrs>:<reqdata>:<acts>
+                let p: Vec<&str> = r.split(':').collect();
+                let acts: Vec<&str> = p[8].split(',').filter(|a| *a != "x" && *a != "-").collect();
+                let peer = if c % 2 == 1 { (2000 + c).to_string() } else { "-".to_owned() };
+                format!(
+                    "R:{c}:{}:{}:11:{peer}:{}:-:{}",
+                    p[2],
+                    p[3],
+                    p[6],
+                    if acts.is_empty() { "-".to_owned() } else { acts.join(",") }
+                )
+            }
+            10..=11 => {
+                if live.is_empty() {
+                    format!("Q:{next}")
+                } else {
+                    let i = rng.below(live.len());
+                    format!("Q:{}", live.remove(i))
+                }
+            }
+            12..=13 => format!("D:{s}"),
+            14..=15 => format!("V:{s}"),
+            16 => format!("E:{s}:{}={}", rng.range(1, 3), rng.below(10)),
+            17 => format!("C:{s}:{}", rng.range(1, slots as usize)),
+            18 => format!("D:{s}"),
+            _ => {
+                if rng.chance(1, 6) {
+                    "X".to_owned()
+                } else {
+                    format!("V:{s}")
+                }
+            }
+        });
+    }
+    toks.join(" ")
+}
+
+fn gen(ctx: &Ctx) -> Vec<String> {
+    let mut rng = Rng::new(ctx.seed);
+    let mut cases = Vec::new();
+    for _ in 0..ctx.budget(600) {
+        let n = if rng.chance(1, 10) { rng.range(20, 40) } else { rng.range(1, 14) };
+        let slots = *rng.pick(&[1u32, 2, 3, 6]);
+        cases.push(gen_history(&mut rng, n, slots));
+    }
+    for _ in 0..ctx.budget(6) {
+        cases.push(gen_overflow(&mut rng));
+    }
+    for _ in 0..ctx.budget(200) {
+        let n = if rng.chance(1, 10) { rng.range(20, 40) } else { rng.range(2, 14) };
+        let slots = *rng.pick(&[1u32, 2, 3, 6]);
+        cases.push(gen_h1(&mut rng, n, slots));
+    }
+    cases
+}
 
 pub fn prop() -> Prop {
-    Prop {
-        rule: "unimplemented",
-        parallel: false,
-        gen: Box::new(|_| Vec::new()),
-        run: Box::new(|_| CaseResult::ok("unimplemented".to_owned())),
-    }
+    Prop { rule: RULE, parallel: true, gen: Box::new(gen), run: Box::new(run) }
 }
